@@ -233,7 +233,12 @@ fn extension_additions(input: Input<'_>) -> ParserResult<'_, ()> {
         opt(pair(
             skip_ws_and_comments(char(COMMA)),
             skip_ws_and_comments(separated_list0(
-                skip_ws_and_comments(char(COMMA)),
+                // the additional element set is an element set of its own (`..., 7 | 9`):
+                // its operators belong to it, not to the root
+                alt((
+                    value((), skip_ws_and_comments(char(COMMA))),
+                    value((), set_operator),
+                )),
                 skip_ws_and_comments(alt((
                     value(
                         0,
